@@ -203,6 +203,14 @@ pub fn ilv_programs() -> Vec<Program> {
         v.push(p);
     }
     {
+        // the worker charges a new key while the sweeper releases an expired one: afterwards a put that fits must not
+        // push k out (k 40 + c 20 + d 35 <= W = 105; b has been swept)
+        let mut p = mk("k:get(miss) || other:put(c) || {tick} sweeping b ; then put(d) that fits;get(k)", vec![put(1, 40), put_ttl(2, 30, 1000), adv(3000)], vec![vec![get(9)], vec![put(3, 20)], vec![Op::Tick]]);
+        p.setup.weight = 105;
+        p.post = vec![put(4, 35), get(1)];
+        v.push(p);
+    }
+    {
         let mut p = mk("k:put_ttl(9s);await;upsert(v);get;upsert(remove-ttl);await;get || other:put_ttl(b);delete(b) || {clock+3s;tick}", vec![], vec![
             vec![put_ttl(1, 30, 9000), Op::Await { call: 0 }, ups(1, true, None, None, false), get(1), ups(1, true, Some(30), None, true), Op::Await { call: 4 }, get(1)],
             vec![put_ttl(2, 30, 1000), del(2)],
